@@ -47,7 +47,10 @@ def rand_body(rng, depth, maxdepth, names, inames, top=False):
             nm = rng.choice(names)
             items.append({'v': [nm, rand_value(rng, names, 0.35)]})
         elif r < 0.45 and inames:
-            items.append({'v': [rng.choice(inames), [['l', rng.choice(IDENTS)]]]})
+            nm = rng.choice(inames)
+            others = [x for x in inames if x != nm]
+            # the value of a selector variable is an identifier, or (a chain) another selector variable
+            items.append({'v': [nm, [['r', rng.choice(others)]] if others and rng.random() < 0.3 else [['l', rng.choice(IDENTS)]]]})
         elif r < 0.75 and not top:
             items.append({'d': [rng.choice(PROPS), rand_value(rng, names, 0.6)]})
         elif depth < maxdepth:
@@ -105,9 +108,10 @@ def rand_program0(rng):
         if rng.random() < 0.8:
             pos = rng.randrange(0, len(sheet) + 1)
             sheet.insert(pos, {'v': [nm, rand_value(rng, [x for x in names if x != nm], 0.3, 2)]})
-    for nm in inames:
+    for k, nm in enumerate(inames):
         pos = rng.randrange(0, len(sheet) + 1)
-        sheet.insert(pos, {'v': [nm, [['l', rng.choice(IDENTS)]]]})
+        chain = k > 0 and rng.random() < 0.4
+        sheet.insert(pos, {'v': [nm, [['r', inames[0]]] if chain else [['l', rng.choice(IDENTS)]]]})
     return sheet
 
 
@@ -169,7 +173,8 @@ def oracle(items, envs, path, out):
         if 'd' in it:
             own.append((it['d'][0], canon.norm_value(''.join(subst(envs, it['d'][1])))))
         elif 'r' in it:
-            sel = ''.join(''.join(x[1] for x in find(envs, t[1])) if t[0] == 'i' else t[1] for t in it['r'])
+            # an interpolation is the fully substituted value of the variable (chains of variable-to-variable definitions included)
+            sel = ''.join(''.join(subst(envs, [['r', t[1]]])) if t[0] == 'i' else t[1] for t in it['r'])
             sub = []
             decls = oracle(it['b'], [hoist(it['b'])] + envs, path + [sel], sub)
             if decls:
